@@ -5,6 +5,7 @@ C06 driver — one request line = one sequence of words run from the booted stat
                             | open-bitstr@<base>  the word open-bitstr; <base> = start() of the bit-string
                                                    being opened (representation parameter, observed by the harness)
                             | I+ | I-             intercept_output(true/false)
+                            | L=<n> | L=-         set_stack_limit(Some(n) / None)
                             | <word>              any modelled word of bitstr_ext.rs
 
 Answer: one report per non-push token, joined by " | ":
@@ -27,6 +28,8 @@ def parseTok (t : String) : Option POp :=
   else if t.startsWith "open-bitstr@" then (t.drop 12).toString.toNat?.map POp.openBitstr
   else if t = "I+" then some (.intercept true)
   else if t = "I-" then some (.intercept false)
+  else if t = "L=-" then some (.limit none)
+  else if t.startsWith "L=" then (t.drop 2).toString.toNat?.map fun n => POp.limit (some n)
   else wordOp t
 
 def statusStr : Outcome Unit → String
